@@ -43,6 +43,18 @@ Delete(d, key) ==
 MemberName(sub) == "m" \o ToString(sub)
 HexD == <<"0", "1", "2", "3", "4", "5", "6", "7", "8", "9", "a", "b", "c", "d", "e", "f">>
 Hex(n) == IF n < 16 THEN HexD[n + 1] ELSE HexD[(n \div 16) + 1] \o HexD[(n % 16) + 1]
+\* The same two-map container one level down: ODRecord (MutableMapping: add_member, rec[sub] = var,
+\* del rec[key], explicit __contains__) and ODArray (Mapping: add_member only; __getitem__ synthesises the
+\* members 1..255 from member 1, and membership is Mapping's "look it up and see").  Members are
+\* objects of kind "var" whose index field holds the sub-index.
+ArrLookup(d, key) ==
+    LET r == Lookup(d, key) IN
+    IF r.ok THEN [ok |-> TRUE, synth |-> FALSE, id |-> r.obj.id, name |-> r.obj.name]
+    ELSE IF key.k = "i" /\ 0 < key.v /\ key.v < 256 /\ 1 \in DOMAIN d.ix
+      THEN [ok |-> TRUE, synth |-> TRUE, id |-> 0, name |-> d.ix[1].name \o "_" \o Hex(key.v)]
+    ELSE [ok |-> FALSE, synth |-> FALSE, id |-> 0, name |-> ""]
+ArrContains(d, key) == ArrLookup(d, key).ok
+
 \* member of a record / array by number: [ok, sub, name]; arrays synthesise 1..255 from member 1
 Member(o, sub) ==
     IF sub \in SeqSet(o.subs) THEN [ok |-> TRUE, sub |-> sub, name |-> MemberName(sub)]
